@@ -53,13 +53,12 @@ n_ctx = dict(cls='next_op', members=['stream_', 'receiver_', 'concreteReceiver_'
 ] + TRY_CATCH_NEXT + refs('stream_', 'strm'),
     post=[(r'\bself->', 'VF_OP(self)->')])
 
-l_ctx = dict(cls='cleanup_op', members=['stream_', 'receiver_', 'cleanupOp_'], pre=[
+# inside the cleanup operation the bare name `cleanupOp_` is its own manual_lifetime member (not touched by start()),
+# `stream_.cleanupOp_` the stream's pointer: only stream_ / receiver_ are rewritten as members of this class
+l_ctx = dict(cls='cleanup_op', members=['stream_', 'receiver_'], pre=[
     (r'(?<![\w.>])start_cleanup\(\);', 'EV_start_cleanup(this);'),
     (r'unifex::set_done\(std::move\(receiver_\)\);', 'EV_cleanup_done(this);'),
 ] + refs('stream_'))
-# inside the cleanup operation `cleanupOp_` is its own manual_lifetime member, `stream_.cleanupOp_` the stream's pointer:
-# only the bare name is the member of this class
-l_ctx['members'] = ['stream_', 'receiver_']
 
 sc_ctx = dict(cls='cleanup_op', members=['stream_', 'receiver_'], pre=[
     (r'(?s)cleanupOp_\.construct_with\(\[&\] \{\s*return unifex::connect\([^;]*;\s*\}\);', 'if (EV_src_cleanup_construct(this)) goto vf_catch;'),
@@ -133,7 +132,7 @@ SPEC = dict(
         'the source stream completes each started next() exactly once, by calling one of next_receiver::set_value/set_done/set_error (each of which is handle_signal with a delivery lambda); unifex::start() does not throw',
         'unit next_start assumes that the consumer does not destroy the next operation while its start() is still running; unit next_start_op_lifetime drops that assumption (the consumer may destroy the operation as soon as the stop callback has completed it) and checks that start() reads no member of the operation after registering the callback (fixed defect C13-stop-immediately-start-reads-op-after-callback)',
         'the cleanup operation passed to start_cleanup lives until its receiver is completed; the stream outlives its cleanup',
-        'NOT REACHED: element order / values of every adaptor, reduce_stream / for_each folds, type_erased_stream, the delivery lambdas of next_receiver::set_value/set_done/set_error (nextError_ hand-off), take_until (own group if added)',
+        'NOT REACHED: element order / values of every adaptor, reduce_stream / for_each folds, type_erased_stream, the delivery lambdas of next_receiver::set_value/set_done/set_error (nextError_ hand-off), take_until (group specs/take_until)',
         'atomics sequentially consistent',
     ],
     drops=['memory orders', 'template genericity (SourceStream, Values, Receiver)', 'reference members -> pointers (spec-level rule)',
